@@ -1,6 +1,7 @@
 package checks
 
 import (
+	"encoding/json"
 	"fmt"
 	"math/rand"
 	"sort"
@@ -24,6 +25,12 @@ type rec15 struct {
 	Descr     string
 	Submit    time.Time
 	Status    workflow.Status
+	// raw search documents only: which properties the stored document actually has (a Cosmos SQL comparison with an
+	// undefined property is not true)
+	raw       bool
+	hasSwarm  bool
+	swarm     string
+	hasStatus bool
 }
 
 func (r rec15) key() string {
@@ -229,6 +236,9 @@ func c15Run(c *Ctx, idx int) CaseResult {
 			if limit < 0 {
 				continue
 			}
+			if h.Cosmos != nil {
+				h.Cosmos.Queries()
+			}
 			ch, err := h.Vault.List(ctx, limit)
 			res.Counters["list_queries"]++
 			if err != nil {
@@ -245,6 +255,24 @@ func c15Run(c *Ctx, idx int) CaseResult {
 			}
 			want := refFilter(recs, storage.Filters{}, limit)
 			if kind == "cosmos-fake" {
+				// the emitted query evaluated over the raw search documents
+				if qs := h.Cosmos.Queries(); len(qs) == 1 {
+					if rawRecs, rerr := rawSearchRecs(ctx, h); rerr == nil {
+						if evald, perr := evalCosmosQuery(qs[0], rawRecs); perr != nil {
+							res.Counters["cosmos_query_unparsable"]++
+							res.Note = "cosmos list query not understood by the interpreter: " + perr.Error()
+						} else {
+							res.Counters["cosmos_queries_interpreted"]++
+							if !sameOrdered(evald, want) {
+								d := "members"
+								if sameSet(evald, want) {
+									d = "order"
+								}
+								add("list-query", d, "the Cosmos SQL sent for List(%d) selects %v from the stored search documents under our reading of Cosmos SQL, want %v; query: %s", limit, shortIDs(evald), shortIDs(want), qs[0].Query)
+							}
+						}
+					}
+				}
 				// the fake ignores ORDER BY: count/limit and membership only
 				if len(got) != len(want) {
 					add("list", "count", "List(%d) returned %d plans, want %d", limit, len(got), len(want))
@@ -304,7 +332,14 @@ func c15Run(c *Ctx, idx int) CaseResult {
 					res.Counters["cosmos_query_not_recorded"]++
 					continue
 				}
-				evald, perr := evalCosmosQuery(qs[0], recs)
+				// evaluated over the RAW documents of the search partition (not over the model): a search entry that
+				// lost a property, kept a stale status or survived a Delete is then visible
+				rawRecs, rerr := rawSearchRecs(ctx, h)
+				if rerr != nil {
+					res.Counters["cosmos_raw_unreadable"]++
+					continue
+				}
+				evald, perr := evalCosmosQuery(qs[0], rawRecs)
 				if perr != nil {
 					res.Counters["cosmos_query_unparsable"]++
 					res.Note = "cosmos query not understood by the interpreter: " + perr.Error()
@@ -509,18 +544,70 @@ func (p *cqParser) andExpr() (cqPred, error) {
 	return l, nil
 }
 
+// undefinedVal is the value of a property the stored document does not have.
+type undefinedVal struct{}
+
 func fieldVal(field string, r rec15) (any, error) {
 	switch field {
 	case "c.swarm":
+		if r.raw {
+			if !r.hasSwarm {
+				return undefinedVal{}, nil
+			}
+			return r.swarm, nil
+		}
 		return "swarm", nil
 	case "c.id":
 		return r.ID, nil
 	case "c.groupID":
 		return r.Group, nil
 	case "c.stateStatus":
+		if r.raw && !r.hasStatus {
+			return undefinedVal{}, nil
+		}
 		return int64(r.Status), nil
 	}
 	return nil, fmt.Errorf("unknown field %s", field)
+}
+
+// rawSearchRecs decodes the raw documents of the search partition held by the fake.
+func rawSearchRecs(ctx context.Context, h *store.Handle) ([]rec15, error) {
+	items, err := h.Cosmos.RawItems(ctx)
+	if err != nil {
+		return nil, err
+	}
+	var out []rec15
+	for _, it := range items {
+		if it.Table != "search" {
+			continue
+		}
+		var doc map[string]any
+		if err := json.Unmarshal(it.Data, &doc); err != nil {
+			return nil, fmt.Errorf("search document %s: %w", it.ID, err)
+		}
+		r := rec15{raw: true}
+		if v, ok := doc["id"].(string); ok {
+			r.ID, _ = uuid.Parse(v)
+		}
+		if v, ok := doc["groupID"].(string); ok {
+			r.Group, _ = uuid.Parse(v)
+		}
+		r.Name, _ = doc["name"].(string)
+		r.Descr, _ = doc["descr"].(string)
+		if v, ok := doc["submitTime"].(string); ok {
+			r.Submit, _ = time.Parse(time.RFC3339Nano, v)
+		}
+		if v, ok := doc["stateStatus"].(float64); ok {
+			r.hasStatus = true
+			r.Status = workflow.Status(int(v))
+		}
+		if v, ok := doc["swarm"].(string); ok {
+			r.hasSwarm = true
+			r.swarm = v
+		}
+		out = append(out, r)
+	}
+	return out, nil
 }
 
 func (p *cqParser) primary() (cqPred, error) {
@@ -577,6 +664,9 @@ func (p *cqParser) primary() (cqPred, error) {
 			fv, err := fieldVal(field, r)
 			if err != nil {
 				return false, err
+			}
+			if _, undef := fv.(undefinedVal); undef {
+				return false, nil
 			}
 			return fmt.Sprint(fv) == fmt.Sprint(v), nil
 		}, nil
